@@ -1045,7 +1045,75 @@ def c13(ctx):
         selftest(ctx, "WsShimTrace", "WsShimTrace.cfg", good[0], [("foreign-dial", foreign), ("path-changed", path)])
 
 
-CHECKS = {"C11": c11, "C12": c12, "C13": c13, "C10": c10, "C08": c08, "C20": c20, "C02": c02, "C03": c03, "C09": c09, "C01": c01, "C04": c04, "C07": c07, "C05": c05, "C06": c06}
+def c14(ctx):
+    import random
+    ctx.rule = ("cases = each-class sweep + seeded random combinations over method x Accept x Sec-Fetch-Mode x Sec-Fetch-Dest x Referer x status x Content-Type x "
+                "Content-Disposition x body shape (<head> absent / at 0 / early / after 3 KB / straddling byte 1024 / twice / upper case / empty / 100 KB) x backend "
+                "write segmentation x banner on/off x shim on/off (domains exported by TLC from Inject.tla) through the real banner.Proxy + websockets.Proxy + "
+                "ReverseProxy(ShimBody) chain; distinct = class combinations")
+    ctx.assumptions = ["'HTML document' = media type text/html or application/xhtml+xml; Content-Types that merely mention html are generated but not judged",
+                       "'already framed' = Sec-Fetch-Mode nested-navigate, Sec-Fetch-Dest iframe, or a Referer with the same host and path"]
+    tlc_must_hold(ctx, "Inject", "Inject_MC.cfg")
+    gen = tlc_generate(ctx, "InjectGen", "InjectGen.cfg", "inject_domains.json")
+    dom = json.load(open(gen))
+    rnd = random.Random(ctx.seed)
+    must = [{"banner": True, "shim": True, "method": "GET", "accept": "html", "status": 200, "ctype": "html", "dispo": "none", "mode": "none", "dest": "none", "referer": "none", "body": "head-early"},
+            {"banner": True, "shim": True, "method": "GET", "accept": "html", "status": 200, "ctype": "html", "dispo": "none", "mode": "nested-navigate", "dest": "none", "referer": "none", "body": "head-early"},
+            {"banner": False, "shim": True, "method": "GET", "accept": "html", "status": 200, "ctype": "html-charset", "dispo": "none", "body": "two-heads", "first": "all"},
+            {"banner": False, "shim": True, "method": "GET", "accept": "json", "status": 200, "ctype": "json", "dispo": "none", "body": "head-early", "first": "all"},
+            {"banner": True, "shim": False, "method": "GET", "accept": "html", "status": 200, "ctype": "html", "dispo": "attachment", "mode": "none", "dest": "none", "referer": "none", "body": "head-early"},
+            {"banner": True, "shim": False, "method": "POST", "accept": "html", "status": 200, "ctype": "html", "dispo": "none", "mode": "none", "dest": "none", "referer": "none", "body": "head-early"},
+            {"banner": True, "shim": False, "method": "GET", "accept": "html", "status": 404, "ctype": "html", "dispo": "none", "mode": "none", "dest": "none", "referer": "none", "body": "head-early"}]
+    cs = class_cases(dom, 4000 if ctx.tier == "thorough" else 450, rnd, must)
+    cases = []
+    for i, c in enumerate(cs):
+        d = cap(c)
+        d["N"] = i + 1
+        cases.append(d)
+    prod = 1
+    for v in dom.values():
+        prod *= len(v)
+    ctx.extra["class_product_size"] = prod
+    cpath = os.path.join(ctx.scratch, "inject_cases.json")
+    json.dump({"cases": cases}, open(cpath, "w"))
+    go_build_harness(ctx)
+    events, _ = drive(ctx, "inject", cases=cpath, timeout=3000)
+    kinds = {}
+    for e in events:
+        if e.get("ev") == "InjectCase":
+            kinds[e["out"]["kind"]] = kinds.get(e["out"]["kind"], 0) + 1
+    ctx.extra["observed_kinds"] = kinds
+    segs = [[{"ev": "Reset", "seg": e.get("case"), "sig": e.get("sig")}, e] for e in events if e.get("ev") == "InjectCase"]
+    fails = validate_segments(ctx, "InjectTrace", "InjectTrace.cfg", segs, batch=600)
+    for seg, idx, out, inv in fails:
+        e = seg[1]
+        report_failure(ctx, e.get("sig"), "request/response classes %s: observed %s, which the injection rules of C14 do not allow" % (json.dumps(e["c"], sort_keys=True), json.dumps(e["out"], sort_keys=True)), seg=seg, tlc_out=out[-2000:])
+    if not all(k in kinds for k in ("same", "script", "frame")):
+        raise Inconclusive("not all alteration kinds were observed: %s" % kinds)
+    ok = [s for s in segs if not any(s is f[0] for f in fails)]
+    nonhtml = [s for s in ok if s[1]["c"]["ctype"] in ("json", "plain", "octet") and s[1]["out"]["kind"] == "same"]
+    framed = [s for s in ok if s[1]["out"]["kind"] == "frame"]
+
+    def touched(seg):
+        seg[1]["out"]["kind"] = "script"
+        return True
+
+    def hdrs(seg):
+        seg[1]["out"]["hdrs_same"] = False
+        return True
+
+    def frame_not_ok(seg):
+        seg[1]["out"]["frame_ok"] = False
+        return True
+
+    def frame_on_post(seg):
+        seg[1]["c"]["method"] = "POST"
+        return True
+    selftest(ctx, "InjectTrace", "InjectTrace.cfg", nonhtml[0], [("non-html-body-touched", touched), ("non-html-headers-touched", hdrs)])
+    selftest(ctx, "InjectTrace", "InjectTrace.cfg", framed[0], [("frame-without-url-or-cache-headers", frame_not_ok), ("frame-on-post", frame_on_post)])
+
+
+CHECKS = {"C14": c14, "C11": c11, "C12": c12, "C13": c13, "C10": c10, "C08": c08, "C20": c20, "C02": c02, "C03": c03, "C09": c09, "C01": c01, "C04": c04, "C07": c07, "C05": c05, "C06": c06}
 
 if __name__ == "__main__":
     pid = sys.argv[1]
